@@ -184,15 +184,18 @@ let model_line out w line =
         else begin
           let tm = Hashtbl.find w.terms id in
           let bytes =
-            if (name = "elem" || name = "str") && (try Hashtbl.find failnext id with Not_found -> false) then begin
+            if (name = "elem" || name = "str" || name = "move" || name = "hide" || name = "show") && (try Hashtbl.find failnext id with Not_found -> false) then begin
               (* the single write of this operation fails: nothing is sent and nothing is
                  remembered (the generator only places a failure before an operation that
                  writes nothing but its glyph) *)
               Hashtbl.replace failnext id false;
               (match parse_op name t with
                | Some o -> let (_, cmds) = step tm.beh tm.st o in
-                   out (if cmds = [] then "NOEXC"
-                        else if List.for_all (function Payload _ -> true | _ -> false) cmds then "EXC" else "EXC-PARTIAL")
+                   if cmds = [] then begin
+                     (* nothing to write: the operation completes (and changes nothing) *)
+                     let (st', _) = step tm.beh tm.st o in tm.st <- st'; out "NOEXC" end
+                   else out (if name = "move" || name = "hide" || name = "show"
+                                || List.for_all (function Payload _ -> true | _ -> false) cmds then "EXC" else "EXC-PARTIAL")
                | None -> ());
               [] end
             else if name = "arm" then (tm.armed <- true; Hashtbl.replace arm2 id false; [])
@@ -354,6 +357,7 @@ let model_line out w line =
          | "pluselem" -> let a = num t in put (s_append_elem (get a) (mk_elem t))
          | "insert" -> let pos = num t in put (s_insert (get id) (nat_of_int pos) (mk_elem t))
          | "insertrange" -> let pos = num t in let o = num t in put (s_insert_range (get id) (nat_of_int pos) (get o))
+         | "insertstream" -> let pos = num t in let b = unhex (str t) in put (s_insert_range (get id) (nat_of_int pos) (s_of_bytes b))
          | "erase" -> put (s_erase_all (get id))
          | "erasefrom" -> put (s_erase_from (get id) (nat_of_int (num t)))
          | "eraserange" -> let a = num t in let b = num t in put (s_erase_range (get id) (nat_of_int a) (nat_of_int b))
@@ -477,7 +481,7 @@ let oracle_mode () =
             if k = 0 then Hashtbl.remove known_last id;
             let l = Hashtbl.find obs id in l := Forgets k :: !l end
           else if name = "failnext" then Hashtbl.replace failnext id true
-          else if (name = "elem" || name = "str") && (try Hashtbl.find failnext id with Not_found -> false) then
+          else if (name = "elem" || name = "str" || name = "move" || name = "hide" || name = "show") && (try Hashtbl.find failnext id with Not_found -> false) then
             (* an operation whose first write failed: it reached neither the terminal nor
                the library's belief, so it is no observation *)
             Hashtbl.replace failnext id false
